@@ -486,3 +486,157 @@ Proof.
   2:{ split; [exact H0|]. split; [unfold ylen; destruct (leap Y); lia|]. unfold in_i32. lia. }
   cbn. f_equal. lia.
 Qed.
+
+(* Mm.w.d: the w-th (5 = last) weekday wd of month m *)
+Lemma first_weekday_index first wd : 0 <= wd <= 6 ->
+  filter (fun i => days_to_wday (first + i) false =? wd) [0; 1; 2; 3; 4; 5; 6] = [(wd - wd_sun0 first) mod 7].
+Proof.
+  intros Hwd. set (k := (wd - wd_sun0 first) mod 7). assert (Hk : 0 <= k <= 6) by (subst k; lia).
+  assert (Hf : forall i, 0 <= i <= 6 -> (days_to_wday (first + i) false =? wd) = (i =? k)).
+  { intros i Hi. apply eq_true_iff_eq. rewrite !Z.eqb_eq. subst k. unfold days_to_wday, wd_sun0. lia. }
+  cbn [filter]. rewrite !Hf by lia.
+  assert (C : k = 0 \/ k = 1 \/ k = 2 \/ k = 3 \/ k = 4 \/ k = 5 \/ k = 6) by lia. clearbody k.
+  destruct C as [-> | [-> | [-> | [-> | [-> | [-> | ->]]]]]]; reflexivity.
+Qed.
+
+Theorem rule_date_M Y m w wd : MIN_Y < Y < MAX_Y -> Y <> 0 -> 1 <= m <= 12 -> 1 <= w <= 5 -> 0 <= wd <= 6 ->
+  (let! wds := weekdays_in_month Y m wd in
+   let! dom := (if w =? 5 then match rev wds with x :: _ => TzOk x | [] => TzPanic end
+                else match nth_error wds (Z.to_nat (w - 1)) with Some x => TzOk x | None => TzPanic end) in
+   match year_month_to_doy Y m with
+   | Ok (start, _) => unwrap_days (year_doy_to_days Y (start + dom) false)
+   | _ => TzPanic end) = TzOk (rule_date Y (SM m w wd)).
+Proof.
+  intros HY H0 Hm Hw Hwd. pose proof (year_bounds Y HY H0) as B. unfold weekdays_in_month. rewrite year_month_to_doy_ok by exact Hm.
+  assert (V : valid (Y, m, 1)) by (unfold valid; pose proof (mlen_bounds Y m); lia).
+  assert (R : in_range (Y, m, 1)) by (unfold in_range, date_leb, MIN_DATE, MAX_DATE, MIN_Y, MAX_Y in *; lia).
+  rewrite date_to_days_ok by assumption. rewrite first_weekday_index by exact Hwd.
+  unfold rule_date. set (first := rd (Y, m, 1)). set (k := (wd - wd_sun0 first) mod 7). assert (Hk : 0 <= k <= 6) by (subst k; lia).
+  pose proof (mlen_bounds Y m) as ML. set (ml := mlen Y m) in *.
+  set (G := fun dom => unwrap_days (year_doy_to_days Y (cum (leap Y) m + dom) false)).
+  change (tzbind ?x (fun dom => unwrap_days (year_doy_to_days Y (cum (leap Y) m + dom) false))) with (tzbind x G).
+  assert (Fin : forall dom, 1 <= dom <= ml -> G dom = TzOk (first + dom - 1)).
+  { intros dom Hdom. subst G. cbv beta. pose proof (cum_bounds Y m dom Hm Hdom) as CB.
+    destruct (year_doy_to_days_spec Y (cum (leap Y) m + dom) ltac:(lia)) as [A _]. rewrite A.
+    - cbn [unwrap_days]. f_equal. subst first. unfold rd. cbn [cum]. lia.
+    - split; [exact H0|]. split; [lia|]. unfold in_i32, ylen in *. destruct (leap Y); lia. }
+  assert (C : k = 0 \/ k = 1 \/ k = 2 \/ k = 3 \/ k = 4 \/ k = 5 \/ k = 6) by lia.
+  assert (CM : ml = 28 \/ ml = 29 \/ ml = 30 \/ ml = 31) by lia.
+  assert (CW : w = 1 \/ w = 2 \/ w = 3 \/ w = 4 \/ w = 5) by lia.
+  clearbody k ml first G.
+  destruct C as [-> | [-> | [-> | [-> | [-> | [-> | ->]]]]]]; destruct CM as [-> | [-> | [-> | ->]]]; destruct CW as [-> | [-> | [-> | [-> | ->]]]];
+    cbn; (etransitivity; [apply Fin; lia | f_equal; lia]).
+Qed.
+
+(* ================= C18: the lookup computes the specification's offset ================= *)
+Definition year_of (d : Z) : Z := fst (fst (days_to_date d)).
+Definition spec_rule (r : trule) : srule :=
+  match r with
+  | RFixed u => SFixed u
+  | RAlt a => SAlt (mkSalt (a_std a) (a_dst a) (spec_day (a_std_end a)) (a_std_end_time a) (spec_day (a_dst_end a)) (a_dst_end_time a))
+  end.
+Definition spec_file (tz : timezone) : tzfile := mkTzf (tz_trans tz) (tz_types tz) (option_map spec_rule (tz_rule tz)).
+
+(* the year the rule is evaluated in: the UTC year of the instant (clamped only in the first and last year of the range) *)
+Lemma rule_year_is t : ts_in_range t ->
+  rule_year t = TzOk (Z.max (MIN_Y + 1) (Z.min (MAX_Y - 1) (utc_year year_of t))).
+Proof.
+  intros Ht. destruct (c03_ts_dt t Ht) as (v & E & (Hd & Hn & _) & _ & Hi & Ho). unfold rule_year. rewrite E.
+  unfold dt_year. destruct v as [d n o]. cbn [dt_days dt_nanos dt_off] in *. subst o.
+  assert (EL : dt_local (mkDT d n 0) = Ok (d, n)).
+  { assert (R : inst_in_range (local_instant (mkDT d n 0))).
+    { unfold local_instant, instant. cbn [dt_days dt_nanos dt_off]. revert Hd Hn.
+      unfold in_i32, inst_in_range, MIN_I, MAX_I, NANOS_PER_DAY, NANOS_PER_SEC, I32_MIN, I32_MAX. lia. }
+    rewrite dt_local_ok by exact R. unfold local_instant, instant. cbn [dt_days dt_nanos dt_off]. fold D.
+    f_equal. f_equal; revert Hn; unfold D, NANOS_PER_DAY, NANOS_PER_SEC; intros Hn; lia. }
+  rewrite EL. cbn [bind]. f_equal. f_equal. f_equal. unfold utc_year, year_of, UNIX_EPOCH_DAY. f_equal. f_equal. f_equal.
+  unfold instant in Hi. cbn [dt_days dt_nanos] in Hi. revert Hn Hi. unfold EPOCH_SECS, DAYS_TO_1970, SECS_PER_DAY, NANOS_PER_DAY, NANOS_PER_SEC. intros Hn Hi. lia.
+Qed.
+
+Lemma rule_ts_spec rdy time t Y : rule_day_ok rdy -> time_ok time -> rule_year t = TzOk Y -> MIN_Y < Y < MAX_Y -> Y <> 0 ->
+  rule_to_local_timestamp rdy time t = TzOk ((rule_date Y (spec_day rdy) - UNIX_EPOCH_DAY) * 86400 + time).
+Proof.
+  intros Hr Ht EY HY H0. unfold rule_to_local_timestamp. rewrite EY. cbn [tzbind]. pose proof (year_bounds Y HY H0) as B.
+  assert (Fin : forall dd, rd (Y, 1, 1) <= dd <= rd (Y, 1, 1) + 366 ->
+            match dt_from_seconds (dd * SECS_PER_DAY + time) with Ok v => TzOk (dt_timestamp v) | _ => TzPanic end
+            = TzOk ((dd - UNIX_EPOCH_DAY) * 86400 + time)).
+  { intros dd Hdd. unfold dt_from_seconds. rewrite secs_to_days_nanos_ok by (revert Ht B; unfold time_ok, I32_MIN, I32_MAX, SECS_PER_DAY; lia).
+    cbn [bind]. f_equal. unfold dt_timestamp, dt_as_seconds. cbn [dt_days dt_nanos].
+    rewrite days_nanos_to_secs_spec by (unfold SECS_PER_DAY, NANOS_PER_DAY, NANOS_PER_SEC; lia).
+    unfold UNIX_EPOCH_DAY, DAYS_TO_1970, SECS_PER_DAY, NANOS_PER_SEC. lia. }
+  destruct rdy as [n | n | m w wd]; cbn [rule_day_ok] in Hr; cbn [spec_day].
+  - rewrite (rule_date_J Y n HY H0 Hr). cbn [unwrap_days tzbind]. apply Fin. unfold rule_date. destruct (leap Y && (60 <=? n)); lia.
+  - pose proof (rule_date_N Y n HY H0 Hr) as E. cbv zeta in E. destruct (unwrap_days (year_doy_to_days Y 1 false)) as [j| |]; cbn [tzbind] in *; try discriminate.
+    injection E as E. rewrite E. apply Fin. unfold rule_date. lia.
+  - destruct Hr as (Hm & Hw & Hwd). pose proof (rule_date_M Y m w wd HY H0 Hm Hw Hwd) as E. cbv zeta in E.
+    destruct (weekdays_in_month Y m wd) as [wds| |]; cbn [tzbind] in *; try discriminate.
+    match type of E with tzbind ?x _ = _ => destruct x as [dom| |] end; cbn [tzbind] in *; try discriminate.
+    destruct (year_month_to_doy Y m) as [[start ml]| |]; try discriminate. rewrite E. cbn [tzbind]. apply Fin.
+    unfold rule_date. pose proof (mlen_bounds Y m) as ML. pose proof (cum_bounds Y m 1 Hm ltac:(lia)) as C1.
+    assert (Ef : rd (Y, m, 1) = rd (Y, 1, 1) + cum (leap Y) m) by (unfold rd; cbn [cum]; lia). rewrite Ef. unfold ylen in C1.
+    set (k := (wd - wd_sun0 (rd (Y, 1, 1) + cum (leap Y) m)) mod 7). assert (0 <= k <= 6) by (subst k; lia). clearbody k.
+    pose proof (cum_bounds Y m (mlen Y m) Hm ltac:(lia)) as C2. unfold ylen in C2.
+    destruct (Z.ltb_spec (mlen Y m) (1 + k + 7 * (w - 1))); destruct (leap Y); lia.
+Qed.
+
+Lemma latest_in_range trans n : (forall t i, In (t, i) trans -> 0 <= i < n) -> forall t acc, 0 <= acc < n -> 0 <= latest_type trans t acc < n.
+Proof.
+  induction trans as [|[t0 i0] tl IH]; intros H t acc Ha; cbn [latest_type]; [exact Ha|].
+  destruct (t0 <=? t); [|exact Ha]. apply IH; [intros a b Hin; apply (H a b); right; exact Hin | apply (H t0 i0); left; reflexivity].
+Qed.
+
+Theorem lookup_is_spec tz t : tz_wf tz -> sorted_trans (tz_trans tz) -> ts_in_range t ->
+  MIN_Y + 1 <= utc_year year_of t <= MAX_Y - 1 ->
+  exists u, spec_lookup year_of (spec_file tz) t = Some u /\ to_local_time_type tz t = TzOk u.
+Proof.
+  intros (Hidx & Hty & Hru) Hs Ht Hy. unfold spec_lookup, to_local_time_type, spec_file, last_time. cbn [f_trans f_types f_rule].
+  assert (Y0 : utc_year year_of t <> 0).
+  { unfold utc_year, year_of. destruct (days_to_date_rd (t / 86400 + UNIX_EPOCH_DAY)) as [V _]. destruct (days_to_date _) as [[y m] d]. cbn [fst]. destruct V as (V & _). exact V. }
+  (* the table branch *)
+  assert (Tab : tz_trans tz <> [] -> exists u, nth_error (tz_types tz) (Z.to_nat (latest_type (tz_trans tz) t 0)) = Some u /\
+                 nth_error (tz_types tz) (Z.to_nat (scan_rev (rev (tz_trans tz)) t)) = Some u).
+  { intros Hne. rewrite (scan_is_latest _ t Hs).
+    assert (Hn : 0 < Z.of_nat (length (tz_types tz))).
+    { destruct (tz_trans tz) as [|[t0 i0] tl]; [congruence|]. specialize (Hidx t0 i0 ltac:(left; reflexivity)). lia. }
+    pose proof (latest_in_range (tz_trans tz) (Z.of_nat (length (tz_types tz))) Hidx t 0 ltac:(lia)) as Hl.
+    destruct (nth_error (tz_types tz) (Z.to_nat (latest_type (tz_trans tz) t 0))) as [u|] eqn:En; [exists u; split; reflexivity|].
+    apply nth_error_None in En. lia. }
+  (* the rule branch *)
+  assert (Rule : forall r, tz_rule tz = Some r -> exists u, rule_offset year_of (spec_rule r) t = u /\
+            match r with
+            | RFixed u0 => TzOk u0
+            | RAlt a =>
+                let! std_end_ts := rule_to_local_timestamp (a_std_end a) (a_std_end_time a) t in
+                let! dst_end_ts := rule_to_local_timestamp (a_dst_end a) (a_dst_end_time a) t in
+                let std_end_unix := std_end_ts - a_std a in
+                let dst_end_unix := dst_end_ts - a_dst a in
+                if (std_end_unix <? dst_end_unix) && (std_end_unix <=? t) && (t <? dst_end_unix) then TzOk (a_dst a)
+                else if std_end_unix <? dst_end_unix then TzOk (a_std a)
+                else if (dst_end_unix <? std_end_unix) && (dst_end_unix <=? t) && (t <? std_end_unix) then TzOk (a_std a)
+                else TzOk (a_dst a)
+            end = TzOk u).
+  { intros r Er. specialize (Hru r Er). destruct r as [u0 | a]; cbn [spec_rule rule_offset]; [exists u0; split; reflexivity|].
+    destruct Hru as (R1 & T1 & R2 & T2 & _). set (Y := utc_year year_of t) in *.
+    assert (EY : rule_year t = TzOk Y) by (rewrite (rule_year_is t Ht); fold Y; f_equal; lia).
+    rewrite (rule_ts_spec _ _ t Y R1 T1 EY ltac:(lia) Y0), (rule_ts_spec _ _ t Y R2 T2 EY ltac:(lia) Y0). cbn [tzbind]. cbv zeta.
+    unfold switch_start, switch_end. cbn [sa_std sa_dst sa_start sa_start_time sa_end sa_end_time].
+    set (s := (rule_date Y (spec_day (a_std_end a)) - UNIX_EPOCH_DAY) * 86400 + a_std_end_time a - a_std a).
+    set (e := (rule_date Y (spec_day (a_dst_end a)) - UNIX_EPOCH_DAY) * 86400 + a_dst_end_time a - a_dst a).
+    eexists. split; [reflexivity|].
+    destruct (Z.ltb_spec s e); cbn [andb].
+    - destruct ((s <=? t) && (t <? e)); reflexivity.
+    - destruct (Z.ltb_spec e s); cbn [andb]; [destruct ((e <=? t) && (t <? s)); reflexivity|].
+      destruct (Z.leb_spec e t); destruct (Z.ltb_spec t s); cbn [andb]; try reflexivity; lia. }
+  destruct (rev (tz_trans tz)) as [|[t0 i0] rt] eqn:Er.
+  - assert (E0 : tz_trans tz = []) by (apply (f_equal (@rev (Z * Z))) in Er; rewrite rev_involutive in Er; exact Er).
+    destruct (tz_rule tz) as [r|] eqn:Erule; cbn [option_map].
+    + destruct (Rule r eq_refl) as (u & E1 & E2). exists u. split; [rewrite E1; reflexivity | exact E2].
+    + rewrite E0. cbn [latest_type Z.to_nat]. destruct (tz_types tz) as [|u tl] eqn:Ety; [exfalso; apply (Hty eq_refl); reflexivity|].
+      exists u. split; reflexivity.
+  - assert (Hne : tz_trans tz <> []) by (intros X; rewrite X in Er; discriminate).
+    destruct (tz_rule tz) as [r|] eqn:Erule; cbn [option_map andb].
+    + destruct (Z.ltb_spec t0 t).
+      * destruct (Rule r eq_refl) as (u & E1 & E2). exists u. split; [rewrite E1; reflexivity | exact E2].
+      * destruct (Tab Hne) as (u & E1 & E2). exists u. split; [exact E1|]. rewrite E2. reflexivity.
+    + rewrite andb_false_r. destruct (Tab Hne) as (u & E1 & E2). exists u. split; [exact E1|]. rewrite E2. reflexivity.
+Qed.
